@@ -81,7 +81,9 @@ def run_tlc(cfg, module, env=None, workers=4, timeout=600, extra=None, gen=GEN, 
     if env:
         e.update(env)
     heap = heap or os.environ.get("VERIF_TLC_HEAP_TRACE" if dfs else "VERIF_TLC_HEAP_MC", "1200m" if dfs else "6g")
-    e["JAVA_TOOL_OPTIONS"] = f"-Xmx{heap}" + (" -Dtlc2.tool.queue.IStateQueue=StateDeque" if dfs else "")
+    # TLC creates a scratch directory under java.io.tmpdir on every start and leaves it behind: keep it
+    # inside the run's own meta directory, which is removed below
+    e["JAVA_TOOL_OPTIONS"] = f"-Xmx{heap} -Djava.io.tmpdir={meta}" + (" -Dtlc2.tool.queue.IStateQueue=StateDeque" if dfs else "")
     e.pop("_JAVA_OPTIONS", None)
     cmd = ["tlc", "-workers", str(workers), "-metadir", meta, "-config", cfg, module] + (extra or [])
     try:
